@@ -4,7 +4,7 @@ from ..paths import PathEnum
 from ..shapes import Shapes, shape_s, TOP
 from ..tables import enum_const_table, string_matcher
 from .fields import field_writers
-from .util import propagated_error, payload_of, result_test, option_test, tested_call, CASEFOLD, LOWER, NEUTRAL_STR, TRIM, const_of, is_call, last_seg, look, norm, option_is_some, transforms, truth
+from .util import writer_roots, propagated_error, payload_of, result_test, option_test, tested_call, CASEFOLD, LOWER, NEUTRAL_STR, TRIM, const_of, is_call, last_seg, look, norm, option_is_some, transforms, truth
 
 EXPLANATION = (
     "Static decision of the header-line parser by path-sensitive dataflow over Headers::parse_header_line, "
@@ -289,15 +289,37 @@ def line(ctx):
                 ctx.ob("R15.4", "rejected-does-not-write|%s" % field, not a, "a rejected %s line leaves self.%s alone" % (arm, field), fn.loc(lf.bb))
     for arm, field, const in (("Expect", "expect", "100-continue"), ("TransferEncoding", "chunked", "chunked")):
         setters = 0
+
+        def eq_const(t):
+            """+1 / -1 if t is `x == const` / `x != const` on a str, else 0"""
+            if is_call(t, "eq", "ne") and len(t[2]) == 2 and (const_of(t[2][1]) == const or const_of(t[2][0]) == const):
+                return 1 if last_seg(t[1]) == "eq" else -1
+            return 0
+
         for lf in arms.get(arm, []):
             a = assigns(lf, field)
-            asked = any(is_call(t, "eq") and const_of(t[2][1]) == const and truth(c) for (t, c, _bb) in lf.conds)
-            if asked:
+            asked = False
+            for (t, c, _bb) in lf.conds:
+                neg = False
+                x = t
+                while x[0] == "un" and x[1] == "Not":
+                    x, neg = look(x[2]), not neg
+                k = eq_const(x)
+                tv = truth(c)
+                if k and tv is not None:
+                    if (tv != neg) == (k == 1):
+                        asked = True
+            # `self.flag |= value == CONST`: can only ever turn the flag on, whatever the path
+            ors = [e for e in a if e[4][0] == "bin" and e[4][1] == "BitOr" and any(eq_const(look(x)) == 1 for x in e[4][2:4]) and any(look(x)[0] == "field" and look(x)[3] == field for x in e[4][2:4])]
+            if ors and len(ors) == len(a):
+                setters += 1
+                ctx.ob("R15.4", "any-wins|%s|set" % field, len(a) == 1, "self.%s |= (value == %r): the flag can only be turned on" % (field, const), fn.loc(lf.bb))
+            elif asked:
                 setters += 1
                 ctx.ob("R15.4", "any-wins|%s|set" % field, len(a) == 1 and a[0][4] == ("const", True), "a %s line asking for %r sets self.%s = true" % (arm, const, field), fn.loc(lf.bb))
             else:
                 ctx.ob("R15.4", "any-wins|%s|untouched|bb%d" % (field, lf.trace[-2]), not a, "any other %s value leaves self.%s alone" % (arm, field), fn.loc(lf.bb))
-        ctx.ob("R15.4", "any-wins|%s|has-setter" % field, setters == 1, "exactly one path sets self.%s (found %d)" % (field, setters), fn.loc(0))
+        ctx.ob("R15.4", "any-wins|%s|has-setter" % field, setters >= 1, "a path sets self.%s (found %d)" % (field, setters), fn.loc(0))
     # all writers of the four fields in the crate
     allowed = {
         "content_length": {PHL, "<common::headers::Headers as std::default::Default>::default"},
@@ -308,7 +330,7 @@ def line(ctx):
     }
     for field, ok_fns in allowed.items():
         for w in field_writers(facts, H, field):
-            ctx.ob("R15.4", "writers|%s|%s" % (field, w[0]), w[0] in ok_fns, "writer of Headers.%s: %s (%s)" % (field, w[0], w[3]), w[2])
+            ctx.ob("R15.4", "writers|%s|%s" % (field, w[0]), writer_roots(facts, w[0]) <= ok_fns, "writer of Headers.%s: %s (%s)" % (field, w[0], w[3]), w[2])
     # other arms write nothing
     for arm in arms:
         for lf in arms[arm]:
@@ -318,7 +340,8 @@ def line(ctx):
             ctx.ob("R15.4", "arm-writes|%s|bb%d" % (arm, lf.trace[-2] if len(lf.trace) > 1 else 0), fields <= expect, "arm %s writes only %s (writes %s)" % (arm, sorted(expect), sorted(fields)), fn.loc(lf.bb))
     # R15.5
     n = 0
-    for bb, t in fn.calls_to("parse"):
+    from .util import calls_with_helpers
+    for fn_, bb, t in calls_with_helpers(facts, fn, "parse"):
         targs = [x["s"] for x in t["callee"].get("targs", [])]
         n += 1
         ctx.ob("R15.5", "parse-u32", targs == ["u32"], "Content-Length parsed with str::parse::<%s>" % ",".join(targs), fn.loc(bb))
@@ -520,10 +543,77 @@ def encoding(ctx):
         elif starq and has_id:
             seen.add("*;q=0+identity")
             ctx.ob("R15.9", "star-q0-with-identity-continues", lf.kind == "loop" or isok, "'*;q=0' with identity mentioned is acceptable", fn.loc(lf.bb))
+        elif lf.kind == "return" and iserr and any(t[0] == "discr" and is_call(look(t[1]), "find", "position") and "Iterator" in look(t[1])[1] for (t, c, _bb) in lf.conds):
+            pass     # the rejection of the search form: judged below
         elif lf.kind == "return" and iserr:
             nonutf = cond(lambda t: t[0] == "discr" and is_call(look(t[1]), "from_utf8"), None) or any(t[0] == "discr" and is_call(look(t[1]), "from_utf8") and c == ("eq", 1) for (t, c, _bb) in lf.conds)
             seen.add("non-utf8" if nonutf else "other-error")
             ctx.ob("R15.9", "other-error|bb%d" % lf.trace[-2], nonutf, "the only other rejection is invalid UTF-8", fn.loc(lf.bb))
+    # the search form: text.split(',').find(|e| <e rules identity out>) -> Some(e) => Err, None => Ok
+    finder = None
+    for lf in leaves:
+        for (t, c, _bb) in lf.conds:
+            if t[0] == "discr" and is_call(look(t[1]), "find", "position") and "Iterator" in look(t[1])[1]:
+                finder = look(t[1])
+    if finder is not None and not ({"identity;q=0", "*;q=0"} <= seen):
+        it = look(finder[2][0])
+        while it[0] == "mut":
+            it = look(it[1])
+        clo = look(finder[2][1])
+        src_ok = is_call(it, "split") and const_of(it[2][1]) in (44, ",") and clo[0] == "closure" and clo[1] in facts.fns
+        text = it[2][0] if src_ok else None
+        verdicts = set()
+        subj_ok_f = False
+        if src_ok:
+            cf = facts.fns[clo[1]]
+            ctx.touched(cf)
+            for l2 in PathEnum(cf, facts, start_env={"_1": clo} if False else None).run():
+                def cond2(pred, want):
+                    for (t, c, _bb) in l2.conds:
+                        tv = truth(c)
+                        while t[0] == "un" and t[1] == "Not":
+                            t = look(t[2])
+                            tv = None if tv is None else not tv
+                        if pred(t) and tv is want:
+                            return True
+                    return False
+                r2 = look(l2.ret())
+                neg = False
+                while r2[0] == "un" and r2[1] == "Not":
+                    r2, neg = look(r2[2]), not neg
+                idq = cond2(lambda t: is_call(t, "eq") and const_of(t[2][1]) == "identity;q=0", True)
+                starq = cond2(lambda t: is_call(t, "eq") and const_of(t[2][1]) == "*;q=0", True)
+                for (t, c, _bb) in l2.conds:
+                    if is_call(t, "eq") and const_of(t[2][1]) == "identity;q=0":
+                        sj = look(t[2][0])
+                        trs = transforms(sj)
+                        subj_ok_f = is_call(sj, "trim") and not any(x in CASEFOLD for x in trs) and any(x == ("arg", 2) for x in subterms(sj))
+                val = None
+                if r2[0] == "const" and isinstance(r2[1], bool):
+                    val = r2[1] != neg
+                elif is_call(r2, "contains") and const_of(r2[2][1]) == "identity":
+                    val = "mentions" if not neg else "not-mentions"
+                if idq:
+                    verdicts.add(("identity;q=0", val))
+                elif starq:
+                    verdicts.add(("*;q=0", val))
+                else:
+                    verdicts.add(("other", val))
+        want_v = {("identity;q=0", True), ("*;q=0", "not-mentions"), ("other", False)}
+        ctx.ob("R15.9", "search|element-classifier", src_ok and verdicts == want_v, "the search predicate over the comma pieces is: 'identity;q=0' -> offending; '*;q=0' -> offending iff the header does not mention identity; anything else -> fine (found %s)" % sorted(verdicts, key=str), fn.loc(0))
+        outcome = {}
+        for lf in leaves:
+            for (t, c, _bb) in lf.conds:
+                if t[0] == "discr" and norm(look(t[1])) == norm(finder) and option_is_some(c) is not None and lf.kind == "return":
+                    r = lf.ret()
+                    outcome[option_is_some(c)] = r[2] if r[0] == "agg" else "?"
+        ctx.ob("R15.9", "search|outcome", outcome == {True: "Err", False: "Ok"}, "an offending element rejects the header, none accepts it (%s)" % outcome, fn.loc(0))
+        if src_ok and verdicts == want_v and outcome == {True: "Err", False: "Ok"}:
+            seen |= {"identity;q=0", "*;q=0", "*;q=0+identity"}
+            seen.discard("other-error")
+        ctx.ob("R15.9", "element-is-trimmed-comma-piece", subj_ok_f, "each comma-separated element is compared after trim(), case-sensitively", fn.loc(0))
+        ctx.ob("R15.9", "covered", {"empty", "identity;q=0", "*;q=0", "*;q=0+identity"} <= seen, "paths found: %s" % sorted(seen), fn.loc(0))
+        return
     # element subject: trim(next(split(text, ',')))
     subj_ok = False
     for lf in leaves:
